@@ -278,7 +278,7 @@ func init() {
 					applies = append(applies, cl)
 				}
 			}
-			okCopy := copyPos != nil && firstApply != nil && copyPos.Pos() < firstApply.Pos()
+			okCopy := copyPos != nil && firstApply != nil && startOf(copyPos) < startOf(firstApply)
 			if okCopy {
 				as, _ := fi.parent[copyPos].(*ast.AssignStmt)
 				cc := copyPos.(*ast.CallExpr)
@@ -310,7 +310,7 @@ func init() {
 						var best *defSite
 						for i := range fi.defs[v] {
 							d := &fi.defs[v][i]
-							if d.rhs != nil && d.node.Pos() < g.At.Pos() && (best == nil || d.node.Pos() > best.node.Pos()) {
+							if d.rhs != nil && startOf(d.node) < startOf(g.At) && (best == nil || startOf(d.node) > startOf(best.node)) {
 								best = d
 							}
 						}
